@@ -17,3 +17,12 @@ Proof. intros (HT & H2 & H2s & Hcb) H0 H1. unfold timing in *. unfold fn_send_re
 Theorem tie_send_request_percall_W cfg T Tp P2 P2S now a1 : timing cfg (Some T) P2 P2S -> 0 <= Tp -> now < a1 ->
   fn_send_request_percall_W T Tp P2 P2S now a1 = ret (obs_sr (send_request cfg st_init tp_req Tp now [(a1, Frame [127; 62; 120])])).
 Proof. intros (HT & H2 & H2s & Hcb) H0 H1. unfold timing in *. unfold fn_send_request_percall_W. replace (Tp <? 0) with false by lia; sr_tac HT H2 H2s Hcb. Qed.
+Theorem tie_send_request_percall_no_overall_silence cfg Tp P2 P2S now : timing cfg None P2 P2S -> 0 <= Tp ->
+  fn_send_request_percall_no_overall_silence Tp P2 P2S now = ret (obs_sr (send_request cfg st_init tp_req Tp now [])).
+Proof. intros (HT & H2 & H2s & Hcb) H0. unfold timing in *. unfold fn_send_request_percall_no_overall_silence. replace (Tp <? 0) with false by lia; sr_tac HT H2 H2s Hcb. Qed.
+Theorem tie_send_request_percall_no_overall_P cfg Tp P2 P2S now a1 : timing cfg None P2 P2S -> 0 <= Tp -> now < a1 ->
+  fn_send_request_percall_no_overall_P Tp P2 P2S now a1 = ret (obs_sr (send_request cfg st_init tp_req Tp now [(a1, Frame [126; 0])])).
+Proof. intros (HT & H2 & H2s & Hcb) H0 H1. unfold timing in *. unfold fn_send_request_percall_no_overall_P. replace (Tp <? 0) with false by lia; sr_tac HT H2 H2s Hcb. Qed.
+Theorem tie_send_request_percall_no_overall_W cfg Tp P2 P2S now a1 : timing cfg None P2 P2S -> 0 <= Tp -> now < a1 ->
+  fn_send_request_percall_no_overall_W Tp P2 P2S now a1 = ret (obs_sr (send_request cfg st_init tp_req Tp now [(a1, Frame [127; 62; 120])])).
+Proof. intros (HT & H2 & H2s & Hcb) H0 H1. unfold timing in *. unfold fn_send_request_percall_no_overall_W. replace (Tp <? 0) with false by lia; sr_tac HT H2 H2s Hcb. Qed.
